@@ -196,6 +196,11 @@ func (s *sup) execute(exec, start *core.FuncDecl) {
 					isStatus = true
 				}
 			}
+			// after the routine returned, any other field of the record (ctxCancel, ctx, deferRetry …) may
+			// by now belong to a successor started on the same record: same guard
+			if !isStatus && userCall >= 0 && ev.Kind == core.KAssign && !ev.FieldInit && ev.Var != nil && ev.Var.IsField() && strings.HasPrefix(core.FieldName(ev.Var), s.pkg+".runningRoutine.") {
+				isStatus = true
+			}
 			if isStatus {
 				a.requireGuard("R12", name+"/status-writes", g, i, false, current, "recording the exit status")
 				a.note("R12", name+"/status-writes/locked", ev.Pos, !holdsLock(ev, s.lock), "the exit status is written under the owner lock", "the exit status is written without the owner lock", p)
@@ -676,6 +681,37 @@ func (s *sup) keyedExtras() {
 					regSec = g.sec[i]
 				}
 			}
+			// what AddKeyRef reports as "existed" is what the underlying SetKey reported (a key lives on
+			// in the Keyed during a release delay although its reference list is empty)
+			if p.End == core.EndReturn {
+				var existedVar *types.Var
+				for _, ev := range p.Events {
+					if ev.Kind == core.KAssign && ev.RhsIdx == 1 && ev.Rhs != nil {
+						if call, ok := unparen(ev.Rhs).(*ast.CallExpr); ok {
+							if _, isSet := callSel(call, "SetKey"); isSet {
+								existedVar = identVar(ev.Lhs, ev.Frame)
+							}
+						}
+					}
+				}
+				okRet := false
+				for _, ev := range p.Events {
+					if ev.Kind != core.KReturn || ev.Frame.Parent != nil {
+						continue
+					}
+					if len(ev.Results) == 3 {
+						okRet = existedVar != nil && identVar(ev.Results[2], ev.Frame) == existedVar
+					} else if len(ev.Results) == 0 {
+						// named results: the third one is the variable SetKey's result was assigned to
+						if _, rv := retResult(ev, 2); rv != nil {
+							okRet = rv == existedVar
+						}
+					}
+				}
+				a.note("R12", name+"/reports-underlying-existed", d.Decl.Pos(), !okRet,
+					"the existed result is the one the underlying SetKey reported",
+					"AddKeyRef reports an existed value that is not the result of the underlying SetKey: during a release delay the key is still in the set although nobody references it, and the caller is told it was not", p)
+			}
 			a.note("R12", name+"/insert-and-register-atomically", pos, setSec != regSec,
 				"the key is inserted and the reference registered in one critical section of KeyedRefCount.mtx",
 				"SetKey and the registration of the new reference are not in the same critical section of KeyedRefCount.mtx: a concurrent Release of the last other reference can remove the key in between, leaving a live reference to an absent key", p)
@@ -694,6 +730,32 @@ func (s *sup) keyedExtras() {
 				if ev.Kind == core.KAcquire {
 					a.note("R16", name+"/test-and-set-prologue", ev.Pos, !swapped, "Release wins an atomic test-and-set before it touches the reference table",
 						"Release enters the critical section without an atomic test-and-set: releasing a reference twice counts twice", p)
+				}
+				// the local copy of the key's reference list, once shortened, is written back (or the
+				// entry deleted) before the section ends: the map holds a slice header of its own
+				if ev.Kind == core.KAssign && !ev.FieldInit && ev.Rhs != nil {
+					if lv := identVar(ev.Lhs, ev.Frame); lv != nil && !lv.IsField() {
+						if _, isSlice := lv.Type().Underlying().(*types.Slice); isSlice {
+							if se, ok := unparen(ev.Rhs).(*ast.SliceExpr); ok && identVar(se.X, ev.Frame) == lv {
+								stored := false
+								for _, b := range p.Events[i+1:] {
+									if b.Kind == core.KCall && b.Builtin == "delete" && len(b.Call.Args) > 0 {
+										if fv := fieldVar(b.Call.Args[0], b.Frame); fv != nil && core.FieldName(fv) == "keyed.KeyedRefCount.refs" {
+											stored = true
+										}
+									}
+									if b.Kind == core.KAssign && b.Var != nil && core.FieldName(b.Var) == "keyed.KeyedRefCount.refs" && b.Rhs != nil && identVar(b.Rhs, b.Frame) == lv {
+										stored = true
+									}
+								}
+								if p.End == core.EndReturn {
+									a.note("R12", name+"/shortened-list-stored-back", ev.Pos, !stored,
+										"the shortened reference list is stored back into the table (or the entry deleted)",
+										"the key's reference list is shortened in a local copy that is never stored back: the table keeps the old length, the key is never seen as unreferenced and is not removed when its last reference is released", p)
+								}
+							}
+						}
+					}
 				}
 				if (ev.Kind == core.KCall || ev.Kind == core.KEnter) && ev.Callee != nil && ev.Callee.Name() == "RemoveKey" {
 					refsRole := "?refs"
@@ -774,29 +836,87 @@ func (s *sup) routineExtras() {
 			}
 		})
 		a.expect("R12", name+"/status-of-current-record", 1, "reads of exited/success/err in WaitExited")
-	}
-	if d := c.declByName("R12", "routine", "StateRoutineContainer", "setStateLocked"); d != nil {
-		name := core.FuncName(d.Obj)
-		c.Walk("R12", &core.Config{Follow: func(f *types.Func) bool { return false }}, core.Entry{Decl: d}, func(p *core.Path) {
-			stored, rebuilt := false, false
-			for _, ev := range p.Events {
-				if assignsField(ev, "routine.StateRoutineContainer.s", "") {
-					stored = true
+		// "nothing is running, return at once" (a bool local set to the constant true inside the
+		// section) is decided only when there is no record or no context: a record that exists under a
+		// context has a status — and possibly an error — to report
+		c.Walk("R12", &core.Config{Follow: helperFollow("routine", "start", "execute")}, core.Entry{Decl: d}, func(p *core.Path) {
+			g := prepare(c, p)
+			for i, ev := range p.Events {
+				if ev.Kind != core.KAssign || ev.FieldInit || ev.Rhs == nil || !holdsLock(ev, s.lock) {
+					continue
 				}
-				if (ev.Kind == core.KCall || ev.Kind == core.KEnter) && ev.Callee != nil && ev.Callee.Name() == "updateStateRoutineLocked" {
-					a.note("R12", name+"/store-state-before-rebuild", ev.Pos, !stored, "the new state is stored before the routine is rebuilt from it",
-						"the routine is rebuilt before the new state is stored: the new instance runs with the previous state", p)
-					rebuilt = true
+				lv := identVar(ev.Lhs, ev.Frame)
+				if lv == nil || lv.IsField() || !isBoolType(lv.Type()) {
+					continue
 				}
-			}
-			if stored && p.End == core.EndReturn {
-				a.note("R12", name+"/stored-state-reaches-routine", d.Decl.Pos(), !rebuilt, "every path that stores a state rebuilds the routine from it",
-					"a path stores a new state without rebuilding the routine: the stored state and the state the running (and every later) instance was given differ", p)
+				tv, ok := ev.Frame.Info().Types[unparen(ev.Rhs)]
+				if !ok || tv.Value == nil || tv.Value.ExactString() != "true" {
+					continue
+				}
+				okGuard, _ := implies(g.litsBefore(i, true), for_(eq("nil", s.slot), eq("nil", s.ctxFld)))
+				a.note("R12", name+"/not-running-only-without-record-or-context", ev.Pos, !okGuard,
+					"the wait is declared over without a status only when there is no record or no context",
+					c.Pretty("WaitExited declares the wait over (without reading the record's status) on a path that has not excluded a record under a live context ("+litsString(g.litsBefore(i, true))+"): an instance that exited with an error is reported as nil"), p)
 			}
 		})
-		a.expect("R12", name+"/store-state-before-rebuild", 1, "updateStateRoutineLocked in setStateLocked")
 	}
-	if d := c.declByName("R12", "routine", "StateRoutineContainer", "updateStateRoutineLocked"); d != nil {
+	// the rebuild function: the StateRoutineContainer method that wraps state and state routine into a
+	// Routine closure (func(context.Context) error) — found by that closure, not by its name
+	var rebuild *core.FuncDecl
+	for _, d := range pkgDecls(c, "routine") {
+		if rn := core.RecvNamed(d.Obj); rn == nil || rn.Obj().Name() != "StateRoutineContainer" {
+			continue
+		}
+		d := d
+		ast.Inspect(d.Decl.Body, func(n ast.Node) bool {
+			lit, ok := n.(*ast.FuncLit)
+			if !ok || rebuild != nil {
+				return rebuild == nil
+			}
+			if sig, ok := d.Pkg.TypesInfo.TypeOf(lit).(*types.Signature); ok && sig.Params().Len() == 1 && sig.Results().Len() == 1 &&
+				isContextType(sig.Params().At(0).Type()) && isErrorType(sig.Results().At(0).Type()) {
+				rebuild = d
+			}
+			return true
+		})
+	}
+	if rebuild == nil {
+		c.MissingAnchor("R12", "routine.StateRoutineContainer: the method that wraps the state into a Routine closure")
+	} else {
+		// every path of every exported method that stores a state rebuilds the routine from it, after the store
+		for _, d := range pkgDecls(c, "routine") {
+			if rn := core.RecvNamed(d.Obj); rn == nil || rn.Obj().Name() != "StateRoutineContainer" || !d.Obj.Exported() {
+				continue
+			}
+			d := d
+			c.Walk("R12", &core.Config{Follow: func(f *types.Func) bool {
+				return helperFollow("routine", "start", "execute")(f) && f.Origin() != rebuild.Obj
+			}}, core.Entry{Decl: d}, func(p *core.Path) {
+				storeIdx, rebuildIdx := -1, -1
+				for i, ev := range p.Events {
+					if assignsField(ev, "routine.StateRoutineContainer.s", "") {
+						storeIdx = i
+					}
+					if (ev.Kind == core.KCall || ev.Kind == core.KEnter) && ev.Callee != nil && ev.Callee.Origin() == rebuild.Obj {
+						if storeIdx < 0 && p.End == core.EndReturn {
+							// a rebuild not preceded by a store on this path: fine only if a later store does not follow
+						}
+						rebuildIdx = i
+					}
+				}
+				if storeIdx >= 0 && p.End == core.EndReturn {
+					name := enclosingName(c, p.Events[storeIdx])
+					a.note("R12", name+"/stored-state-reaches-routine", p.Events[storeIdx].Pos, rebuildIdx < storeIdx,
+						"every path that stores a state rebuilds the routine from it afterwards",
+						"a path stores a new state without rebuilding the routine from it afterwards: the stored state and the state the running (and every later) instance was given differ", p)
+					a.note("R12", name+"/store-state-before-rebuild", p.Events[storeIdx].Pos, rebuildIdx < storeIdx,
+						"the new state is stored before the routine is rebuilt from it",
+						"the routine is rebuilt before the new state is stored: the new instance runs with the previous state", p)
+				}
+			})
+		}
+	}
+	if d := rebuild; d != nil {
 		name := core.FuncName(d.Obj)
 		n := 0
 		ast.Inspect(d.Decl.Body, func(nd ast.Node) bool {
@@ -888,6 +1008,43 @@ func (s *sup) retryOption() {
 		d := d
 		if !d.Obj.Exported() || d.Decl.Recv != nil {
 			continue
+		}
+		// an option built from a *backoff.Backoff configuration switches retrying off (stores nil)
+		// only when that configuration is nil — the documented way to disable it
+		if cfg := paramWhere(d, func(t types.Type) bool {
+			pt, ok := t.(*types.Pointer)
+			if !ok {
+				return false
+			}
+			n, ok := pt.Elem().(*types.Named)
+			return ok && n.Obj().Name() == "Backoff" && n.Obj().Pkg() != nil && strings.HasSuffix(n.Obj().Pkg().Path(), "/backoff")
+		}); cfg != nil {
+			name := core.FuncName(d.Obj)
+			cfgNil := eq("nil", c.Role(cfg))
+			judge := func(lits []*r2Lit, ev *core.Event, p *core.Path) {
+				if ev.Kind == core.KAssign && !ev.FieldInit && ev.Var != nil && ev.Var.IsField() && ev.Rhs != nil && isNilExpr(ev.Rhs, ev.Frame) {
+					ok, _ := implies(lits, cfgNil)
+					a.note("R12", name+"/retry-disabled-only-for-nil-config", ev.Pos, !ok,
+						"the option stores nil (no retry) only when the configuration is nil",
+						"the option switches retrying off on a path that has not established a nil configuration ("+litsString(lits)+"): a valid configuration (for instance one that leaves the kind at its default) silently disables retry, and a failed routine is never run again", p)
+				}
+			}
+			c.Walk("R12", &core.Config{}, core.Entry{Decl: d}, func(p *core.Path) {
+				g := prepare(c, p)
+				for i, ev := range p.Events {
+					judge(g.litsBefore(i, false), ev, p)
+					if ev.Kind == core.KFuncLitVal && ev.Val.Kind == core.VFuncLit {
+						outer := g.litsBefore(i, false)
+						lit := ev.Val.Lit
+						c.Walk("R12", &core.Config{}, core.Entry{Lit: lit, Pkg: d.Pkg, Outer: d, Name: name + ".option"}, func(q *core.Path) {
+							gq := prepare(c, q)
+							for j, qe := range q.Events {
+								judge(append(append([]*r2Lit(nil), outer...), gq.litsBefore(j, false)...), qe, q)
+							}
+						})
+					}
+				}
+			})
 		}
 		var stack []ast.Node
 		ast.Inspect(d.Decl.Body, func(n ast.Node) bool {
